@@ -769,6 +769,224 @@ func NewSink() (dest []byte, flush func() ([]string, error), stop func(), err er
 
 var _ = bytes.Equal
 
+// ---------------------------------------------------------------- concurrent identical credentials
+
+// HashAtProductCost hashes pw the way the product's own helper does (bcrypt default cost), so
+// that one verification takes as long as it does in a deployment.
+func HashAtProductCost(pw string) string {
+	h, err := socks5.HashPassword(pw)
+	if err != nil {
+		panic(err)
+	}
+	return h
+}
+
+// GenHashedUsers draws 1-2 users with bcrypt hashes; every other configuration uses the
+// product's cost, the rest the minimum cost.
+func GenHashedUsers(rng *verifkit.Rand, i int) ([]User, map[string]string) {
+	var us []User
+	hashes := map[string]string{}
+	for k := rng.Range(1, 2); k > 0; k-- {
+		u := User{Name: "h" + rng.Token(rng.Range(2, 8)), Pass: rng.Token(rng.Range(4, 16)), Usable: true, How: "hash-mincost"}
+		if i%2 == 0 {
+			u.How = "hash-productcost"
+			hashes[u.Name] = HashAtProductCost(u.Pass)
+		} else {
+			hashes[u.Name] = Hash(u.Pass)
+		}
+		us = append(us, u)
+	}
+	return us, hashes
+}
+
+type concClient struct {
+	Right  bool   `json:"has_right_pair"`
+	Method int    `json:"method_selected"`
+	Auth   int    `json:"auth_status"`
+	Rep    int    `json:"request_rep"`
+	Err    string `json:"err,omitempty"`
+}
+
+// ConcurrentRounds: in every round K TCP clients complete the greeting, wait at a barrier and
+// then present the SAME credential pair at the same time (a wrong password for a real user, an
+// unknown user, an empty password), optionally with one client that has the right pair; each
+// carries on with a CONNECT whatever the answer. Oracle as everywhere: a client that did not
+// present credentials of a configured user must get neither an authentication success nor a
+// success reply, and the server must not dial more often than there were authenticated
+// clients. How many handshakes were in flight together is measured (client side, between
+// sending the credentials and receiving the status) and reported.
+func (x *Runner) ConcurrentRounds(rng *verifkit.Rand, rounds int) {
+	us := x.S.usable()
+	if len(us) == 0 || !x.S.Enforced {
+		return
+	}
+	r := x.R
+	for ri := 0; ri < rounds && !x.Aborted.Load(); ri++ {
+		k := rng.Range(4, 10)
+		if rng.Chance(1, 6) {
+			k = rng.Range(11, 16)
+		}
+		kind := verifkit.Pick(rng, []string{"wrong-pass", "wrong-pass", "unknown-user", "empty-pass"})
+		withRight := rng.Chance(1, 4)
+		u := verifkit.Pick(rng, us)
+		user, pass := u.Name, u.Pass+"x"
+		switch kind {
+		case "wrong-pass":
+			if rng.Bool() {
+				pass = rng.Token(rng.Range(1, 12))
+			}
+		case "unknown-user":
+			user, pass = "ghost"+rng.Token(4), u.Pass
+		case "empty-pass":
+			pass = ""
+		}
+		if x.S.matches(user, pass) {
+			continue
+		}
+		rightIdx := -1
+		if withRight {
+			rightIdx = rng.Intn(k)
+		}
+		cl := make([]concClient, k)
+		var ready, done sync.WaitGroup
+		release := make(chan struct{})
+		var inflight, maxInflight atomic.Int32
+		var watchdog atomic.Bool
+		for ci := 0; ci < k; ci++ {
+			ready.Add(1)
+			done.Add(1)
+			go func(ci int) {
+				defer done.Done()
+				c := &cl[ci]
+				c.Right = ci == rightIdx
+				c.Method, c.Auth, c.Rep = -1, -1, -1
+				myUser, myPass := user, pass
+				if c.Right {
+					myUser, myPass = u.Name, u.Pass
+				}
+				released := false
+				waitBarrier := func() {
+					if !released {
+						released = true
+						ready.Done()
+						<-release
+					}
+				}
+				defer waitBarrier()
+				conn, err := net.DialTimeout("tcp", x.T.TCPAddr, Watchdog)
+				if err != nil {
+					c.Err = "dial: " + err.Error()
+					return
+				}
+				defer conn.Close()
+				conn.SetDeadline(time.Now().Add(Watchdog))
+				timedOut := func(err error) bool {
+					ne, ok := err.(net.Error)
+					if ok && ne.Timeout() {
+						watchdog.Store(true)
+					}
+					return ok && ne.Timeout()
+				}
+				conn.Write([]byte{5, 1, 2})
+				b := make([]byte, 2)
+				if _, err := io.ReadFull(conn, b); err != nil {
+					timedOut(err)
+					c.Err = "greeting: " + err.Error()
+					return
+				}
+				c.Method = int(b[1])
+				waitBarrier()
+				n := inflight.Add(1)
+				for {
+					m := maxInflight.Load()
+					if n <= m || maxInflight.CompareAndSwap(m, n) {
+						break
+					}
+				}
+				conn.Write(credBlock(1, myUser, myPass))
+				_, err = io.ReadFull(conn, b)
+				inflight.Add(-1)
+				if err == nil {
+					c.Auth = int(b[1])
+				} else if timedOut(err) {
+					c.Err = "auth status: watchdog"
+					return
+				}
+				// carry on regardless
+				conn.Write(request(1, x.T))
+				var got []byte
+				buf := make([]byte, 512)
+				for {
+					if rep, d := replyDone(got); d {
+						if len(got) > 0 && got[0] == 5 {
+							c.Rep = rep
+						}
+						break
+					}
+					m, err := conn.Read(buf)
+					got = append(got, buf[:m]...)
+					if err != nil {
+						timedOut(err)
+						break
+					}
+				}
+				conn.(*net.TCPConn).CloseWrite()
+				if _, err := io.Copy(io.Discard, conn); err != nil {
+					timedOut(err)
+				}
+			}(ci)
+		}
+		ready.Wait()
+		close(release)
+		done.Wait()
+		if watchdog.Load() {
+			r.Inconclusive(fmt.Sprintf("watchdog: %s:%d concurrent round %d did not finish in %v", x.Phase, x.Case, ri, Watchdog))
+			x.Aborted.Store(true)
+			return
+		}
+		ev := x.T.Events()
+		overl := int(maxInflight.Load())
+		r.Add("concurrent_rounds", 1)
+		r.Add("concurrent_clients", k)
+		r.Add("concurrent_rounds_"+kind, 1)
+		if overl >= 2 {
+			r.Add("concurrent_rounds_overlapped", 1)
+		}
+		if overl >= k/2 {
+			r.Add("concurrent_rounds_half_in_flight", 1)
+		}
+		w := map[string]any{"setup": x.S, "round": ri, "clients": k, "credential_kind": kind, "user": user, "pass": pass,
+			"max_handshakes_in_flight": overl, "results": cl, "executed": ev}
+		servedRight, bad := 0, 0
+		for _, c := range cl {
+			switch {
+			case c.Right:
+				if c.Rep == 0 {
+					servedRight++
+					r.Add("concurrent_right_pair_served", 1)
+				}
+			case c.Auth == 0 || c.Rep == 0:
+				bad++
+			default:
+				r.Add("concurrent_wrong_pair_refused", 1)
+			}
+		}
+		allowedDials := 0
+		if rightIdx >= 0 {
+			allowedDials = 1
+		}
+		if bad > 0 || len(ev.Dials) > allowedDials {
+			r.Violation(x.S.Class+":tcp-connect-executed-concurrent-same-credentials", x.Phase, x.Case,
+				fmt.Sprintf("%d clients presented the same %s pair at the same time (max %d handshakes in flight): %d of them got an authentication success / a served CONNECT although the pair matches no configured user (dials seen: %d, clients with the right pair: %d)",
+					k, kind, overl, bad, len(ev.Dials), allowedDials), w)
+		}
+		r.Eval(fmt.Sprintf("conc|%s|%v|%s|%d|%s|%s|%v", x.S.Class, x.S.Users, kind, k, user, pass, withRight), overl >= 2)
+		if overl >= 2 && ri == 0 && r.NeedSample() {
+			r.Sample(w)
+		}
+	}
+}
+
 // ---------------------------------------------------------------- agent-level configurations
 
 // GenAgentAuth draws an auth section. The oracle is permissive: every (username, password) the
